@@ -6,7 +6,9 @@ CHECK = {
     "rule": "A: every script of per-call behaviours {ok, error, panic} x {request, response} for k=1..2 (thorough 3) audit devices "
             "(9^k scripts) x 7 request kinds on a real Core with a recording backend, each repeated to cover map-order rotations; "
             "oracle on the merged event log: backend operation => an earlier accepted request entry, data returned => an earlier "
-            "accepted response entry, all devices failing => error without secret material. H: every payload tree of depth <=2 "
+            "accepted response entry, all devices failing => error without secret material. M: the management calls that change what the log holds "
+            "(mount tune setting audit_non_hmac_request_keys, removal of an audit device) with every one of their storage operations failing once; "
+            "afterwards the broker must exempt a value from HMAC only if the stored configuration lists its key, and a device the API still lists must still receive the request entry before the backend runs. H: every payload tree of depth <=2 "
             "(thorough: + depth 3 over a reduced alphabet), width <=2 over {map, slice} x 7 leaf kinds, in request data and response "
             "data, x HMAC-accessor on/off x exempt-key choice, through the real formatter; distinct non-trivial = distinct "
             "(script, request kind, outcome) / (tree, placement, configuration)",
